@@ -553,6 +553,11 @@ theorem incr_sum (ws : List α) (j : Nat) (h : j < ws.length) : (incr ws j).sum 
       simp only [incr, List.sum_cons]
       rw [ih j (by simpa using h)]; ring
 
+theorem sum_map_div (l : List α) (n : α) : (l.map fun w => w / n).sum = l.sum / n := by
+  induction l with
+  | nil => simp
+  | cons w t ih => simp only [List.map_cons, List.sum_cons, ih, add_div]
+
 theorem foldl_incr_length (N : Int → Nat) (cells : List Int) (ws : List α) :
     (cells.foldl (fun ws c => incr ws (N c)) ws).length = ws.length := by
   induction cells generalizing ws with
@@ -607,6 +612,13 @@ def AreaGrid.at (a : AreaGrid α) (i j : Nat) : Option α := (a.data[i]?).bind (
 /-- row / column of a parent cell -/
 abbrev prow (g : Geom α) (k : Int) : Int := (cell2rowcol g.nrows g.ncols k).1
 abbrev pcol (g : Geom α) (k : Int) : Int := (cell2rowcol g.nrows g.ncols k).2
+
+theorem AreaGrid.at_of_data {a : AreaGrid α} {nr nc : Nat} {f : Int → Int → α}
+    (hd : a.data = (List.range nr).map fun (i : Nat) => (List.range nc).map fun (j : Nat) => f (i : Int) (j : Int))
+    {i j : Nat} (hi : i < nr) (hj : j < nc) : a.at i j = some (f (i : Int) (j : Int)) := by
+  unfold AreaGrid.at
+  rw [hd]
+  simp [hi, hj]
 
 theorem intersect_eq_ok {coarse fine : Geom α} {cells : List Int} {a : AreaGrid α}
     (h : intersect coarse fine cells = .ok a) :
